@@ -393,7 +393,7 @@ Proof.
   - rewrite E. cbn [bind].
     unfold add64. rewrite chk64_ok.
     2: { apply in_i64_small. pose proof (i_lo _ _ HI) as Hlo. pose proof (i_hc _ _ HI) as Hhc. pose proof (i_win _ _ HI) as Hw.
-         fold R in Hhc, Hw. unfold two63, two61, two30 in *. lia. }
+         fold R in Hhc, Hw. unfold two63, two62, two30 in *. lia. }
     cbn [bind]. replace (b =? 0) with false by lia.
     eexists; eexists; eexists. split; [reflexivity |].
     cbn [set_head set_slots r_head r_tail r_cap]. repeat split; lia.
